@@ -1,0 +1,54 @@
+//go:build verif
+
+// Contracts for package sync (checked by /verif/govc; comment-only, compiled only with -tags verif).
+package sync
+
+// ---- C14: every Map operation is one atomic step on the abstract map --------------------------------
+//
+// The abstract state is the Go map m.data. It is guarded by m.mutex: acquiring the mutex forgets
+// everything known about it (other goroutines may have run). Each method must perform its
+// abstract effect inside ONE critical section (the last one of the call); critical sections before
+// it must not change the map (cs-pure). `old(...)` in an atomic clause is the state at the start
+// of that critical section, the plain expression the state at its end.
+//
+//@ guarded Map.data by Map.mutex
+//
+//@ func (*Map) Store(key K, value V)
+//@   requires m != nil
+//@   cs-pure mapUnchanged(m.data)
+//@   atomic [effect] mapIsStore(m.data, key, value)
+//
+//@ func (*Map) Load(key K) (v V, ok bool)
+//@   requires m != nil
+//@   cs-pure mapUnchanged(m.data)
+//@   atomic [effect] mapUnchanged(m.data)
+//@   atomic [result] ok == old(present(m.data, key)) && (ok ==> v == old(m.data[key]))
+//
+//@ func (*Map) LoadOrStore(key K, value V) (actual V, loaded bool)
+//@   requires m != nil
+//@   cs-pure mapUnchanged(m.data)
+//@   atomic [present] old(present(m.data, key)) ==> loaded && actual == old(m.data[key]) && mapUnchanged(m.data)
+//@   atomic [absent] !old(present(m.data, key)) ==> !loaded && actual == value && mapIsStore(m.data, key, value)
+//
+//@ func (*Map) Replace(key K, value V) (oldValue V, oldLoaded bool)
+//@   requires m != nil
+//@   cs-pure mapUnchanged(m.data)
+//@   atomic [effect] mapIsStore(m.data, key, value)
+//@   atomic [result] oldLoaded == old(present(m.data, key)) && (oldLoaded ==> oldValue == old(m.data[key]))
+//
+//@ func (*Map) Delete(key K)
+//@   requires m != nil
+//@   cs-pure mapUnchanged(m.data)
+//@   atomic [effect] mapIsDelete(m.data, key)
+//
+//@ func (*Map) LoadAndDelete(key K) (v V, ok bool)
+//@   requires m != nil
+//@   cs-pure mapUnchanged(m.data)
+//@   atomic [effect] mapIsDelete(m.data, key)
+//@   atomic [result] ok == old(present(m.data, key)) && (ok ==> v == old(m.data[key]))
+//
+//@ func (*Map) Length() (n int)
+//@   requires m != nil
+//@   cs-pure mapUnchanged(m.data)
+//@   atomic [effect] mapUnchanged(m.data)
+//@   atomic [result] n == old(len(m.data))
